@@ -1,7 +1,9 @@
 package callsim
 
 import (
+	"encoding/binary"
 	"fmt"
+	"hash/fnv"
 
 	"github.com/advancedclimatesystems/gonnx/verifsim"
 
@@ -157,40 +159,81 @@ func Worker17(cfg Config) *evid.Stats {
 	}
 	// 2. seeded worlds under a policy drawn per run
 	for i := int64(cfg.W); !rn.expired(); i += int64(cfg.NW) {
-		r := rng.New(rng.Mix(cfg.Seed, 0x17, uint64(i)))
-		c := drawWorld17(r, lib)
-		ys := dry(c)
-		var est int64
-		for _, y := range ys {
-			est += y
-		}
-		nt := len(c.World.Tasks)
-		switch r.Intn(8) {
-		case 0, 1, 2:
-			den := []int{2, 16, 128, 1024}[r.Intn(4)]
-			one(c, &walkPolicy{r: r.Fork(), den: den}, fmt.Sprintf("walk1/%d", den))
-		case 3, 4:
-			d := r.Range(1, 5)
-			one(c, newPCT(r.Fork(), nt, d, est), fmt.Sprintf("pct%d", d))
-		case 5:
-			a := r.Intn(nt)
-			var delta int64
-			if ys[a] > 0 {
-				delta = int64(r.Intn(int(ys[a])))
-			}
-			one(c, &parkPolicy{a: a, delta: delta, order: r.Perm(nt)}, "park")
-		case 6:
-			a := r.Intn(nt)
-			var delta int64
-			if ys[a] > 0 {
-				delta = int64(r.Intn(int(ys[a])))
-			}
-			w := int64([]int{1, 2, 3, 5, 17, 64}[r.Intn(6)])
-			one(c, &lockstepPolicy{a: a, delta: delta, w: w}, fmt.Sprintf("lockstep%d", w))
-		default:
-			one(c, &serialPolicy{order: r.Perm(nt)}, "serial")
-		}
+		c, pol, name := drawRun17(cfg.Seed, i, lib, dry)
+		one(c, pol, name)
 	}
-	st.Probes["distinct_preemption_sites"] = int64(len(sitesSeen))
+	st.Probes["distinct_preemption_sites_summed_over_workers"] = int64(len(sitesSeen))
 	return st
+}
+
+// drawRun17: run i of the seeded part — world, policy and all — as a pure function of (seed, i).
+func drawRun17(seed uint64, i int64, lib *library, dry func(*Case) []int64) (*Case, policy, string) {
+	r := rng.New(rng.Mix(seed, 0x17, uint64(i)))
+	c := drawWorld17(r, lib)
+	ys := dry(c)
+	var est int64
+	for _, y := range ys {
+		est += y
+	}
+	nt := len(c.World.Tasks)
+	switch r.Intn(8) {
+	case 0, 1, 2:
+		den := []int{2, 16, 128, 1024}[r.Intn(4)]
+		return c, &walkPolicy{r: r.Fork(), den: den}, fmt.Sprintf("walk1/%d", den)
+	case 3, 4:
+		d := r.Range(1, 5)
+		return c, newPCT(r.Fork(), nt, d, est), fmt.Sprintf("pct%d", d)
+	case 5:
+		a := r.Intn(nt)
+		var delta int64
+		if ys[a] > 0 {
+			delta = int64(r.Intn(int(ys[a])))
+		}
+		return c, &parkPolicy{a: a, delta: delta, order: r.Perm(nt)}, "park"
+	case 6:
+		a := r.Intn(nt)
+		var delta int64
+		if ys[a] > 0 {
+			delta = int64(r.Intn(int(ys[a])))
+		}
+		w := int64([]int{1, 2, 3, 5, 17, 64}[r.Intn(6)])
+		return c, &lockstepPolicy{a: a, delta: delta, w: w}, fmt.Sprintf("lockstep%d", w)
+	}
+	return c, &serialPolicy{order: r.Perm(nt)}, "serial"
+}
+
+// Digest17 prints one line per run i in [start, start+n): the event-log digest of the simulation. Two
+// executions of the same (seed, i) must print the same line whatever the process, GOMAXPROCS or batch position.
+func Digest17(seed uint64, start, n int64, repo string, out func(string)) {
+	lib := newLibrary(repo)
+	dry := func(c *Case) []int64 {
+		order := make([]int, len(c.World.Tasks))
+		for i := range order {
+			order[i] = i
+		}
+		return execute(cloneCase(c), &serialPolicy{order: order}, false, false).yields
+	}
+	for i := start; i < start+n; i++ {
+		c, pol, name := drawRun17(seed, i, lib, dry)
+		wr := execute(c, pol, false, false)
+		h := fnv.New64a()
+		var b [8]byte
+		w := func(x uint64) { binary.LittleEndian.PutUint64(b[:], x); h.Write(b[:]) }
+		w(wr.sched.Hash())
+		w(uint64(wr.steps))
+		for ti := range wr.results {
+			for ci := range wr.results[ti] {
+				res := &wr.results[ti][ci]
+				h.Write([]byte(res.Kind))
+				for _, k := range sortedKeys(res.Out) {
+					w(res.Out[k].Hash())
+				}
+				for _, k := range sortedKeys(res.LoadW) {
+					w(res.LoadW[k].Hash())
+				}
+				h.Write([]byte(res.Intro))
+			}
+		}
+		out(fmt.Sprintf("%d %s tasks=%d steps=%d switches=%d digest=%016x", i, name, len(c.World.Tasks), wr.steps, wr.switches, h.Sum64()))
+	}
 }
